@@ -1,7 +1,7 @@
 #!/bin/sh
 # Run the repository's own suite against each kept seeded patch (scratch worktree, removed afterwards).
 for pid in "$@"; do
-  work=/tmp/ss_$pid
+  work=/tmp/ss_$(echo $pid | tr -d "/")
   git -C /repo worktree remove --force "$work" 2>/dev/null
   git -C /repo worktree add -q --detach "$work" HEAD || continue
   (cd "$work" && git apply /verif/seeded/$pid/patch.diff) || { echo "$pid PATCH DOES NOT APPLY" > /verif/seeded/$pid/suite.log; git -C /repo worktree remove --force "$work"; continue; }
